@@ -6,6 +6,7 @@ Float laws used: none.
 -/
 import CambrianModel.Lemmas.CtlStep
 import CambrianModel.Lemmas.PopInv
+import CambrianModel.Model.Launch
 namespace Cambrian.Props
 open Cambrian Cambrian.Ctl
 
@@ -51,5 +52,24 @@ example :
     (run c 1 (some 0) 0 (fun _ => ⟨false, 0⟩) evs).1.done = false ∧
     (run c 1 (some 0) 0 (fun _ => ⟨false, 0⟩) evs).1.aborted = false ∧
     (run c 1 (some 0) 0 (fun _ => ⟨false, 0⟩) evs).1.inflight.length = 3 := by decide
+
+/-- The concurrency (and the sample size) in force are the ones asked for: `AlgoConfigBuilder::build` hands positive
+    settings through unchanged and in their places (an obligation on the source facts behind `Launch.buildConfig`). -/
+theorem C05_config_kept (ss nc : Nat) (hs : 0 < ss) (hn : 0 < nc) :
+    Launch.buildConfig (some ss) (some nc) = .ok { sampleSize := ss, numConcurrent := nc } := by
+  have h1 : Generated.zeroSampleSizeRejected = true := by decide
+  have h2 : Generated.zeroNumConcurrentRejected = true := by decide
+  have e1 : (ss == 0) = false := by simp; omega
+  have e2 : (nc == 0) = false := by simp; omega
+  simp [Launch.buildConfig, h1, h2, e1, e2]
+
+/-- ... and an omitted setting is the default read from the source -/
+theorem C05_config_default (nc : Nat) (hn : 0 < nc) :
+    Launch.buildConfig none (some nc) = .ok { sampleSize := Generated.defaultSampleSize, numConcurrent := nc } := by
+  have h1 : Generated.zeroSampleSizeRejected = true := by decide
+  have h2 : Generated.zeroNumConcurrentRejected = true := by decide
+  have hd : Generated.defaultSampleSize = 1 := by decide
+  have e2 : (nc == 0) = false := by simp; omega
+  simp [Launch.buildConfig, h1, h2, hd, e2]
 
 end Cambrian.Props
